@@ -132,6 +132,7 @@ def run(ctx):
 
     # ---- (4)
     C11.run_pad_rule(ctx)
+    C11.run_order_rule(ctx)
     C11._plain(ctx)
 
     # ---- (5)
